@@ -1379,6 +1379,12 @@ class SpaceManager(SharedSpaceOperations):
 
         for subspace in self._get_subs(space):
             if name in subspace.cells:
+                sub = subspace.cells[name]
+                if sub.is_derived():
+                    # The new cells may be the nearest definition now
+                    subspace.clear_subs_rootitems()
+                    sub.on_inherit(
+                        self, self.get_deriv_bases(sub, defined_only=True))
                 continue
             else:
                 subspace.clear_subs_rootitems()
